@@ -132,6 +132,20 @@ def range_bounds(P, R, rule='C18.TAB.2'):
     R.floor(rule, 2, '"*" and ">" walks')
 
 
+def exact_names(P, R, rule='C18.TAB.3'):
+    """A severity is named by exactly one of the names in the table: the lookup compares whole strings.  A
+    length-limited comparison accepts prefixes - and the empty name a dangling operator leaves - so an entry with
+    unknown syntax would be applied instead of ignored."""
+    f = P.need_fn('log_parse_type_sevset')
+    n = 0
+    for s in f.calls():
+        if any(is_var(x, 'log_severity_names') for a in s.ev['args'] for x in walk(a)):
+            n += 1
+            c = s.ev.get('callee')
+            R.ob(rule, c in ('strcasecmp', 'strcmp'), s, 'severity names are matched as whole strings (%s)' % c, key='sev-name-compare')
+    R.floor(rule, 1)
+
+
 def final(e):
     while isinstance(e, dict) and e.get('k') == 'bin' and e['op'] == '=':
         e = e['r']
@@ -311,6 +325,7 @@ def run(P, R, tier):
     reset_then_attach(P, R, h)
     operator_fresh(P, R)
     range_bounds(P, R)
+    exact_names(P, R)
     wiring(P, R, h)
     record_format(P, R)
     # destinations are string (list) values: a reload reroutes only if the setters notice every change
